@@ -22,7 +22,10 @@ struct SockClientThread : public Thread
 		_server->serve(_client);
 		_client.close();
 		--_server->_numClients;
-		delete this;
+	}
+	void finish()
+	{
+		delete this; // not in run(): the thread trampoline still writes the finished flag after run() returns
 	}
 };
 
